@@ -244,6 +244,24 @@ def gen_plan(pcfg, hdr, dw, seed):
             a = alias_base[0] ^ ((1 << k) if (i % 4) in (1, 3) else 0)
             we = (i % 4) < 2
             gap = 0
+        elif prof == "gapsweep":
+            # directed: write, second write to the same row after g idle cycles (g sweeps 0..span-1, i.e. every re-trigger offset of the
+            # write-recovery / write-to-read count-downs), then at once a row conflict ("pre") or a read of the same row ("wtr")
+            g4, k = divmod(i, 4)
+            g4 %= pcfg.get("span", 32)
+            c0 = (4 * g4) % ncolw
+            if k == 0:
+                gap, we, a = pcfg.get("settle", 60), True, ac.encode(fr, fb, r0, c0)
+            elif k == 1:
+                gap, we, a = g4, True, ac.encode(fr, fb, r0, (c0 + 1) % ncolw)
+            elif k == 2:
+                gap = 0
+                if pcfg.get("then", "pre") == "pre":
+                    we, a = bool(g4 & 1), ac.encode(fr, fb, r1, c0)
+                else:
+                    we, a = False, ac.encode(fr, fb, r0, (c0 + 2) % ncolw)
+            else:
+                gap, we, a = 0, False, ac.encode(fr, fb, r0 if pcfg.get("then", "pre") != "pre" else r1, (c0 + 3) % ncolw)
         elif prof == "list":
             item = pcfg["items"][i % len(pcfg["items"])]
             gap, we, a = item[0], bool(item[1]), item[2] % (1 << ac.aw)
